@@ -58,7 +58,7 @@ Outcome(c) ==
         converted |-> Converts(c) /\ RhsUnitOf(c) # PU(c.lu)]
 
 \* unary / scalar-argument operators
-UnOps == {"neg", "pow2", "pow2nd", "pow2q", "pow3a", "powdim", "pow3", "pow0", "powm1", "powm2", "sqrt", "rmul2", "rmulf", "rdiv2", "rdivf", "rdivnd", "rmulnd", "invert"}
+UnOps == {"neg", "pow2", "pow2nd", "pow2q", "pow3a", "powdim", "raddnd", "rsubnd", "rltnd", "pow3", "pow0", "powm1", "powm2", "sqrt", "rmul2", "rmulf", "rdiv2", "rdivf", "rdivnd", "rmulnd", "invert"}
 UnOutcome(op, i) ==
   LET u == PU(i) IN
   CASE op = "neg" -> [raises |-> FALSE, unit |-> Sparse(u), bool |-> FALSE]
@@ -71,6 +71,10 @@ UnOutcome(op, i) ==
     [] op = "sqrt" -> IF URootOk(u, 2) THEN [raises |-> FALSE, unit |-> Sparse(URoot(u, 2)), bool |-> FALSE] ELSE [raises |-> FALSE, unit |-> <<"fractional">>, bool |-> FALSE]
     [] op \in {"rmul2", "rmulf", "rmulnd"} -> [raises |-> FALSE, unit |-> Sparse(u), bool |-> FALSE]
     [] op \in {"rdiv2", "rdivf", "rdivnd"} -> [raises |-> FALSE, unit |-> Sparse(UInv(u)), bool |-> FALSE]
+    \* a plain ndarray / numpy scalar on the LEFT of +, - or < reaches the Array through its ufunc hook: a number is a
+    \* dimensionless quantity, so the operation is refused unless the Array is dimensionless (possibly scaled: m/cm)
+    [] op \in {"raddnd", "rsubnd"} -> IF Compatible(u, Unit0) THEN [raises |-> FALSE, unit |-> Sparse(u), bool |-> FALSE] ELSE [raises |-> TRUE, why |-> "dimension"]
+    [] op = "rltnd" -> IF Compatible(u, Unit0) THEN [raises |-> FALSE, unit |-> Sparse(Unit0), bool |-> TRUE] ELSE [raises |-> TRUE, why |-> "dimension"]
     [] op = "invert" -> [raises |-> FALSE, unit |-> Sparse(Unit0), bool |-> TRUE]
 
 \* conversion a.to(v)
@@ -102,10 +106,10 @@ NpOutcome(c) ==
                           unit |-> Sparse(IF c.f = "multiply" THEN UMul(u, v) ELSE UDiv(u, v))]      \* no conversion: the product of the units is exact
     [] c.f \in Keep2 \cup Pred2 \cup KeepSeq ->
          \* operands carrying different units are converted (to the first one's unit) or the call raises; a plain
-         \* ndarray / number operand carries no unit and is combined as it is
-         IF c.rk = "arr" /\ ~Compatible(u, v) THEN [raises |-> TRUE, why |-> "dimension"]
+         \* ndarray / number operand is a dimensionless quantity (as for the operators)
+         IF ~Compatible(u, v) THEN [raises |-> TRUE, why |-> "dimension"]
          ELSE [raises |-> FALSE, unit |-> Sparse(IF c.f \in Pred2 THEN Unit0 ELSE u), bool |-> c.f \in Pred2,
-               conv |-> IF c.rk = "arr" /\ AllMetric(u) /\ AllMetric(v) THEN Ratio(v, u) ELSE <<>>, converted |-> c.rk = "arr" /\ v # u]
+               conv |-> IF AllMetric(u) /\ AllMetric(v) THEN Ratio(v, u) ELSE <<>>, converted |-> v # u]
 
 DAdd(a, b) == [d \in DOMAIN a |-> a[d] + b[d]]
 DSub(a, b) == [d \in DOMAIN a |-> a[d] - b[d]]
